@@ -177,6 +177,18 @@ CHECKS["C17"] = dict(
     ref="DESIGN.md section 4, C17",
 )
 
+CHECKS["C18"] = dict(
+    category="model_checking",
+    technique="explicit-state search over histories of compilations in forked pristine interpreters (state = snapshot of all process-global mutable state + table cache), repeated for every import-set iteration order and table-cache state; baseline from fresh processes",
+    text="Transitions are real compilations with fresh Compiler objects; each history is replayed in a fork of a pristine interpreter; "
+         "every transition's listing / wasm bytes / failure class must equal the baseline of a fresh process. Thorough: BFS with "
+         "canonical-state deduplication to closure in every configuration plus all 24 cumulative chains; quick: depth 1 plus chains. "
+         "Configurations: hash seeds realising all 6 (and 2) iteration orders of the import sets; cache present / absent / written for the other start symbol.",
+    note="Trusted: the global-state snapshot (module globals, class attributes, default arguments of nsl and ply, cache files) as state abstraction - "
+         "the cumulative chains do not depend on it. Not covered: hash seeds beyond the set-order classes; a corrupted table file.",
+    ref="DESIGN.md section 4, C18",
+)
+
 PENDING = {}
 
 
